@@ -71,8 +71,12 @@ def _register(name, v):
     return v
 
 
+NAME_PREFIX = ['']      # prepended to every symbolic's name (frames built in a loop)
+
+
 def sym_int(name, lo=None, hi=None, default=None):
     """A fresh integer in [lo, hi] (either bound may be None = unbounded)."""
+    name = NAME_PREFIX[0] + name
     if CTX.mode == 'native':
         if name in CTX.model:
             v = CTX.model[name]
@@ -93,6 +97,7 @@ def sym_int(name, lo=None, hi=None, default=None):
 
 
 def sym_bool(name, default=False):
+    name = NAME_PREFIX[0] + name
     if CTX.mode == 'native':
         v = bool(CTX.model.get(name, default))
         CTX.registry.append((name, v))
